@@ -17,14 +17,14 @@
 
    The AEAD is a Section parameter [seal ctr aad plaintext]; nothing is assumed about it.
    The chunk size is the Section variable [F] (instantiated with 1024 in Props/C09.v). *)
-From Coq Require Import List NArith ZArith Arith Bool.
+From Coq Require Import List NArith ZArith Arith Bool String.
 From AHK Require Import Lib.Res Lib.ByteStr Model.Request.
 Import ListNotations.
 Local Open Scope N_scope.
 
 (* request(): as [render] but with the stored Host LINE (the host_header field) *)
 Definition render_with (method target : bytes) (headers : list (bytes * bytes)) (body hostline : bytes) : bytes :=
-  join CRLF ([upper method ++ [SP] ++ target ++ [32; 72; 84; 84; 80; 47; 49; 46; 49]; hostline]
+  join CRLF ([upper method ++ [SP] ++ target ++ lit " HTTP/1.1"; hostline]
              ++ map hdr_line headers ++ [[]; []])
   ++ body.
 
@@ -61,7 +61,7 @@ Section Wire.
   Variable F : nat.
   Variable seal : N -> bytes -> bytes -> bytes.
 
-  Definition len_prefix (c : bytes) : bytes := le_enc 2 (N.of_nat (length c)).
+  Definition len_prefix (c : bytes) : bytes := le_enc 2 (N.of_nat (List.length c)).
 
   (* SecureHomeKitProtocol.send_bytes: the buffer handed to _send_lines *)
   Fixpoint frames (ctr : N) (cs : list bytes) : list bytes :=
@@ -76,7 +76,7 @@ Section Wire.
     | Some Plain => (c, [OCall payload [payload]])
     | Some Secure =>
         let cs := chunks F payload in
-        (mkConn (c_proto c) (c_connected c) (c_hostline c) (c_ctr c + N.of_nat (length cs)),
+        (mkConn (c_proto c) (c_connected c) (c_hostline c) (c_ctr c + N.of_nat (List.length cs)),
          [OCall payload (frames (c_ctr c) cs)])
     end.
 
@@ -100,6 +100,17 @@ Section Wire.
         end
     end.
 
+  (* a written observation is ONE call: the payload itself (plain), or the frames of
+     non-empty chunks of at most F bytes that concatenate to the payload (secure) *)
+  Definition call_ok (o : obs) : Prop :=
+    match o with
+    | ORaise => True
+    | OCall p chunks =>
+        chunks = [p] \/
+        exists ctr cs, chunks = frames ctr cs /\ List.concat cs = p
+                       /\ Forall (fun x => (0 < List.length x <= F)%nat) cs
+    end.
+
   Fixpoint run (c : conn) (evs : list ev) : conn * list obs :=
     match evs with
     | [] => (c, [])
@@ -120,6 +131,13 @@ Fixpoint spec (cur : option bytes) (evs : list ev) : list (option bytes) :=
       | Some h => Some (render_req (mkReq m t h b))
       | None => None
       end :: spec cur r
+  end.
+
+Fixpoint count_req (evs : list ev) : nat :=
+  match evs with
+  | [] => 0%nat
+  | EReq _ _ _ :: r => S (count_req r)
+  | _ :: r => count_req r
   end.
 
 Definition obs_payload (o : obs) : option bytes :=
